@@ -366,6 +366,11 @@ def serde_delegation(ctx, rep):
     se = [k for k in prog.bodies if "Serialize" in k and "for Version" in k.replace("<Version as", "for Version") and k.endswith("::serialize")]
     se = [k for k in prog.bodies if k.endswith("::serialize") and "Version" in k]
     ok_de = bool(de) and all(flow.delegates_to_parse(prog, k, "<Version as std::str::FromStr>::from_str", "Version::parse") for k in de)
+    for k in de:
+        if flow.deserializes_borrowed_str(prog, k):
+            ok_de = False
+            rep.fail("SERDE-VERSION", "Deserialize for Version|SERDE|borrowed str", "Deserialize takes the text as a borrowed `&str`: it fails "
+                     "whenever the deserializer cannot lend the string (readers, serde_json::Value, escaped text)")
     if ok_de:
         rep.ok("SERDE-VERSION")
     else:
